@@ -53,6 +53,36 @@ IsGrayCycle(fl, n) ==
           IN sp.end = 0 /\ Cardinality(sp.seen) = Len(fl)
 
 -----------------------------------------------------------------------------
+(* The sequences as canonization.rs generates them for n >= 7 (generate_gray_flips and        *)
+(* generate_swaps with rollback); the hard-coded tables for n <= 6 are observed through the   *)
+(* walk hook and checked against the predicates above on every recorded call.                 *)
+Gray(i) == i ^^ (i \div 2)
+TrailingZeros(x) == Min({b \in 0..30 : Bit(x, b)})
+GenGrayFlips(n) ==
+  IF n = 0 THEN <<>>
+  ELSE [k \in 1..(2^n) |-> IF k = 2^n THEN n - 1 ELSE TrailingZeros(Gray(k - 1) ^^ Gray(k))]
+
+InsertAt(p, j, v) == [i \in 1..(Len(p) + 1) |-> IF i <= j THEN p[i] ELSE IF i = j + 1 THEN v ELSE p[i - 1]]
+RECURSIVE SSPerms(_)
+SSPerms(n) ==      \* generate_single_swap_permutations
+  IF n = 0 THEN << <<>> >>
+  ELSE IF n = 1 THEN << <<0>> >>
+  ELSE IF n = 2 THEN << <<1, 0>>, <<0, 1>> >>
+  ELSE LET prev == SSPerms(n - 1)
+           m == Len(prev)
+       IN Concrete([k \in 1..(m * n) |->
+             LET i == (k - 1) \div n
+                 r == (k - 1) % n
+                 j == IF i % 2 = 0 THEN r ELSE (n - 1) - r
+             IN Concrete(InsertAt(prev[i + 1], j, n - 1))])
+FirstDiff(p1, p2) == Min({i \in 1..Len(p1) : p1[i] # p2[i]}) - 1       \* find_permutation_swap
+GenSwaps(n) ==
+  LET perms == SSPerms(n)
+      m == Len(perms)
+  IN IF m <= 1 THEN <<>>
+     ELSE [k \in 1..m |-> FirstDiff(perms[k], perms[IF k = m THEN 1 ELSE k + 1])]
+
+-----------------------------------------------------------------------------
 (* Certificates (C05) *)
 CertShapeOK(kind, n, perm, mask) ==
   /\ IsPerm(n, perm)
